@@ -1966,6 +1966,20 @@ class unyt_array(np.ndarray):
                             "added with data that has different units."
                         )
                     inp1 = np.asarray(inp1, dtype=new_dtype) * conv
+            if (
+                ufunc is floor_divide
+                and u0 is not u1
+                and u0 != u1
+                and u0.same_dimensions_as(u1)
+                and not u0.base_offset
+                and not u1.base_offset
+            ):
+                # flooring does not commute with rescaling, so express the
+                # divisor in the units of the dividend before dividing
+                conv, _ = u1.get_conversion_factor(u0, inp1.dtype)
+                new_dtype = np.dtype("f" + str(inp1.dtype.itemsize))
+                inp1 = np.asarray(inp1, dtype=new_dtype) * new_dtype.type(conv)
+                u1 = u0
             # get the unit of the result
             mul, unit = unit_operator(u0, u1)
             # actually evaluate the ufunc
